@@ -640,6 +640,13 @@ class Exec:
         mm = re.match(r'^(.+)::(\w+)$', key)
         if mm and last_seg(mm.group(1)) in ENUMS and mm.group(2) in ENUMS[last_seg(mm.group(1))]:
             en = last_seg(mm.group(1)); return Agg(en, ENUMS[en].index(mm.group(2)), [])
+        if 'promoted[' in key and self.stack:
+            # a promoted constant belongs to the function that is executing: resolve it by that function's own name
+            # (the suffix `sub::promoted[0]` alone is ambiguous between impls with equally named methods)
+            pm = re.search(r'promoted\[(\d+)\]$', key)
+            if pm:
+                k0 = 'const %s::promoted[%s]' % (self.stack[-1], pm.group(1))
+                if k0 in self.fns: return self.call_fn(self.fns[k0][0], [])
         suffix = '::'.join(key.split('::')[-2:]) if 'promoted[' in key else key.split('::')[-1]
         owner = last_seg(key.rsplit('::', 1)[0]) if '::' in key and 'promoted[' not in key else None
         for k in self.fns:
@@ -650,6 +657,9 @@ class Exec:
                 if owner and 'promoted' not in k:
                     ik = impl_key(k)
                     if ik and IMPLS.get(ik, (None, None))[1] != owner: continue
+                if 'promoted[' in key:
+                    amb = [k2 for k2 in self.fns if k2.startswith('const ') and k2.endswith('::' + suffix)]
+                    if len(amb) > 1: raise Unsupported('ambiguous promoted constant %s in %s: %s' % (s, self.stack[-1:] , amb[:3]))
                 return self.call_fn(self.fns[k][0], [])
         if re.match(r'^[A-Z]\w*$', key.split('::')[-1]) and 'promoted' not in key: return Agg(key.split('::')[-1], None, [])      # unit struct value
         raise Unsupported('const? ' + s)
@@ -1042,6 +1052,7 @@ class Exec:
                     cands = [k for k in self.by_method.get(meth, []) if not impl_key(k) and (k == c or k.endswith('::' + c) or c.endswith('::' + k) or c.endswith(k))]
             else:
                 cands = [k for k in self.by_method.get(c, []) if not impl_key(k)]
+        if len(cands) > 1 and c in cands: cands = [c]          # an exact name wins over suffix matches
         if len(cands) != 1: raise Unsupported('unresolved call %s -> %s (stack %s)' % (callee, cands[:3], self.stack[-3:]))
         fn = self.fns[cands[0]][0]; self.res_cache[callee] = fn; return fn
     def fn_by_suffix(self, suffix):
